@@ -165,16 +165,20 @@ impl<T: Serialize> Serialize for Vec<T> {
     fn deserialize(bytes: &[u8]) -> Result<Self, DbError> {
         let len = usize::deserialize(bytes)?;
         let mut begin = len.serialized_size() as usize;
-        let mut vec = Self::with_capacity(len);
+        let error = || {
+            DbError::serialization(
+                DbErrorType::OutOfBounds,
+                format!("Vec<{}> deserialization error", std::any::type_name::<T>()),
+            )
+        };
+        // The length comes from the (untrusted) input. Do not pre-allocate
+        // more elements than there are remaining bytes in the input.
+        let mut vec = Self::with_capacity(std::cmp::min(len, bytes.len().saturating_sub(begin)));
 
         for _ in 0..len {
-            let value = T::deserialize(&bytes[begin..]).map_err(|_| {
-                DbError::serialization(
-                    DbErrorType::OutOfBounds,
-                    format!("Vec<{}> deserialization error", std::any::type_name::<T>()),
-                )
-            })?;
-            begin += value.serialized_size() as usize;
+            let value = T::deserialize(bytes.get(begin..).ok_or_else(error)?)
+                .map_err(|_| error())?;
+            begin = begin.saturating_add(value.serialized_size() as usize);
             vec.push(value);
         }
 
